@@ -1711,7 +1711,12 @@ class LoopExpression(Expression):
         if isinstance(obj, Mapping):
             return iter(obj.items()), len(obj)
         if isinstance(obj, range):
-            return iter(obj), len(obj)
+            try:
+                return iter(obj), len(obj)
+            except OverflowError as err:
+                raise LiquidValueError(
+                    f"range '{self.iterable}' is too big", token=self.token
+                ) from err
         if isinstance(obj, Sequence):
             return iter(obj), len(obj)
 
@@ -1723,7 +1728,7 @@ class LoopExpression(Expression):
     def _to_int(self, obj: object, *, token: TokenT) -> int:
         try:
             return to_int(obj)
-        except (ValueError, TypeError) as err:
+        except (ValueError, TypeError, OverflowError) as err:
             raise LiquidTypeError(
                 f"expected an integer, found {obj.__class__.__name__}",
                 token=token,
@@ -1751,10 +1756,13 @@ class LoopExpression(Expression):
             length = max(length - offset, 0)
         elif offset is not None:
             assert isinstance(offset, int), f"found {offset!r}"
+            # A negative offset is no offset. An offset beyond the end leaves nothing.
+            offset = min(max(offset, 0), length)
             length = max(length - offset, 0)
 
         if limit is not None:
-            length = min(length, limit)
+            # A negative limit is a limit of zero.
+            length = min(length, max(limit, 0))
 
         stop = offset + length if offset else length
         context.stopindex(key=offset_key, index=stop)
